@@ -8,6 +8,7 @@ import (
 	"io"
 	"strings"
 	"testing"
+	"time"
 
 	"github.com/imroc/req/v3/internal/verifc14"
 	"github.com/imroc/req/v3/internal/verifh"
@@ -147,5 +148,169 @@ func TestVerif_C14_containers(t *testing.T) {
 		}
 	}
 	_ = io.EOF
+	s.Finish()
+}
+
+// c14CloseWait: a Close that has not returned after this long is waiting for the body (it
+// normally takes microseconds).
+const c14CloseWait = 3 * time.Second
+
+// TestVerif_C14_close: Close of the four wrappers must reach the body underneath - after any
+// sequence of reads (of any size, zero included) and closes, on intact and on damaged streams.
+// Observed: how often the underlying Body.Close was called; for GzipReader also that a Read
+// after Close returns fs.ErrClosed and no data. Model: Req.Client.CompressClose.runOps closeOf.
+func TestVerif_C14_close(t *testing.T) {
+	s := verifh.New(t, "C14", "close",
+		"alg {gzip, deflate, br, zstd} x stream {valid tiny..>64KiB, truncated, not that format, empty} x operation sequences of length 1..8 over {Read(n) n from 0..65536, Close} (close first, close after a partial read, after the end, repeated closes); answer = number of calls of the underlying Body.Close; model = runOps closeOf (c14close); oracle: once Close was called the underlying body is closed, a Read never closes it; non-trivial = the sequence contains a Close")
+	r := s.Rand()
+	hist := map[string]int{}
+	count := func(k string) { s.Count(k); hist[k]++ }
+	for i, n := 0, verifh.N(600, 30000); i < n; i++ {
+		alg := verifc14.Algs[i%4]
+		pc := 1 + r.Intn(3)
+		if r.Intn(12) == 0 {
+			pc = 4
+		}
+		p := verifc14.Payload(r, pc)
+		w := verifc14.Compress(alg, p)
+		kind := "valid"
+		switch r.Intn(6) {
+		case 0:
+			w, kind = w[:r.Intn(len(w))], "trunc"
+		case 1:
+			w, kind = p, "wrongfmt"
+		case 2:
+			w, kind = nil, "empty"
+		}
+		src := &verifc14.Src{Data: w, Fin: io.EOF}
+		if r.Intn(2) == 0 {
+			src.Chunk = 1 + r.Intn(64)
+		}
+		var ops, trace []string
+		sawClose, readBeforeClose := false, false
+		bad := ""
+		if ptext, panicked := verifh.Safely(func() {
+			rd := NewCompressReader(src, alg)
+			for k := 1 + r.Intn(8); k > 0; k-- {
+				if r.Intn(3) == 0 {
+					rd.Close()
+					ops = append(ops, "c")
+					trace = append(trace, "Close")
+					sawClose = true
+					if alg == "gzip" {
+						buf := make([]byte, 16)
+						if n, err := rd.Read(buf); n != 0 || verifc14.Term(err) != "err3" {
+							bad = fmt.Sprintf("GzipReader: Read after Close returned %d bytes, %v", n, err)
+						}
+						ops = append(ops, "r")
+						trace = append(trace, "Read(16)")
+					}
+				} else {
+					sz := verifh.Pick(r, []int{0, 1, 7, 100, 4096, 65536})
+					closesBefore := src.Closes
+					rd.Read(make([]byte, sz))
+					if src.Closes != closesBefore {
+						bad = "a Read closed the underlying body"
+					}
+					ops = append(ops, "r")
+					trace = append(trace, fmt.Sprintf("Read(%d)", sz))
+					if !sawClose {
+						readBeforeClose = true
+					}
+				}
+			}
+		}); panicked {
+			s.Crash(fmt.Sprintf("close#%d", i), alg+" "+strings.Join(trace, " "), ptext, "")
+			continue
+		}
+		ok := bad == "" && (!sawClose || src.Closes >= 1)
+		class := ""
+		readThenClose := false
+		for k, seenRead := 0, false; k < len(ops); k++ {
+			if ops[k] == "r" {
+				seenRead = true
+			} else if seenRead {
+				readThenClose = true
+			}
+		}
+		if alg == "deflate" && readThenClose {
+			// DeflateReader.Close closes only the flate reader once a Read happened (fixes/C14-5)
+			class = "deflate-close-leaves-body-open"
+		}
+		human := fmt.Sprintf("%s %s payload=%dB wire=%dB chunk=%d: %s -> Body.Close called %d times", alg, kind, len(p), len(w), src.Chunk, strings.Join(trace, " "), src.Closes)
+		if bad != "" {
+			human += " :: " + bad
+		} else if !ok {
+			human += " :: Close did not close the underlying body"
+		}
+		count(alg)
+		count("kind:" + kind)
+		if sawClose {
+			count("closed")
+			if readBeforeClose {
+				count("close-after-read")
+			} else {
+				count("close-first")
+			}
+		}
+		s.Case("c14close "+alg+" "+strings.Join(ops, ","), fmt.Sprintf("body=%d waits=0", src.Closes), ok, class, sawClose, human)
+	}
+	// a body whose peer has stopped sending: Close must not wait for it
+	rnd := make([]byte, 300000)
+	r.Read(rnd)
+	for _, alg := range verifc14.Algs {
+		w := verifc14.Compress(alg, rnd)
+		for _, script := range [][]string{{"c"}, {"r", "c"}, {"r", "r", "c", "c"}} {
+			src := verifc14.NewStallSrc(w[:len(w)/2])
+			waits := 0
+			var trace []string
+			if ptext, panicked := verifh.Safely(func() {
+				rd := NewCompressReader(src, alg)
+				for _, op := range script {
+					if op == "r" {
+						sz := verifh.Pick(r, []int{1, 100, 2000})
+						rd.Read(make([]byte, sz))
+						trace = append(trace, fmt.Sprintf("Read(%d)", sz))
+						continue
+					}
+					done := make(chan struct{})
+					go func() { rd.Close(); close(done) }()
+					select {
+					case <-done:
+					case <-time.After(c14CloseWait):
+						waits = 1
+						src.Close() // let it go: the wrapper never got as far as Body.Close
+						<-done
+					}
+					trace = append(trace, "Close")
+				}
+			}); panicked {
+				s.Crash("stalled "+alg, alg+" "+strings.Join(trace, " "), ptext, "")
+				continue
+			}
+			n := src.NCloses()
+			class := ""
+			hasRead := script[0] == "r"
+			switch {
+			case alg == "zstd" && hasRead:
+				class = "zstd-close-waits-for-body" // fixes/C14-6
+			case alg == "deflate" && hasRead:
+				class = "deflate-close-leaves-body-open"
+			}
+			ok := waits == 0 && n >= 1
+			human := fmt.Sprintf("%s over a STALLED body (%d bytes delivered, then silence): %s -> Close waited for the body: %v, Body.Close called %d times", alg, len(w)/2, strings.Join(trace, " "), waits == 1, n)
+			count("stalled")
+			if waits == 1 {
+				n-- // the harness's own rescue Close
+				count("stalled:close-blocked")
+			}
+			s.Case("c14close "+alg+" "+strings.Join(script, ","), fmt.Sprintf("body=%d waits=%d", n, waits), ok, class, true, human)
+		}
+	}
+	for _, k := range []string{"gzip", "deflate", "br", "zstd", "closed", "close-after-read", "close-first", "kind:valid", "kind:trunc", "kind:wrongfmt", "kind:empty", "stalled"} {
+		if hist[k] == 0 {
+			t.Errorf("bucket %s not reached", k)
+		}
+	}
 	s.Finish()
 }
